@@ -288,6 +288,25 @@ func runC12(c *Ctx) {
 		} else {
 			c.obRF("R12.3", sub, "builds-then-sends", false, "Submit builds one request and sends it", "")
 		}
+		// the debug dump READS the request body: when it fails (a failing upload source), the body is left partly consumed
+		// — the request is not sent after that (what remains of the source would go out as a complete-looking upload)
+		for _, di := range callsIn(sub, "net/http/httputil.DumpRequestOut") {
+			dump, ok := di.(*ssa.Call)
+			if !ok {
+				continue
+			}
+			derr := resultOf(dump, 1)
+			if derr == nil {
+				c.obI("R12.4", dump, "no-send-after-failed-dump", false, "the request is sent only when dumping it (which reads the whole body) succeeded", "the dump's error is dropped")
+				continue
+			}
+			for _, snd := range sends {
+				if !pathExists(sub, dump, snd, nil, nil) {
+					continue
+				}
+				c.obI("R12.4", snd, "no-send-after-failed-dump", guardedBy(snd, dump, factNil(errAlias(derr), true)), "the request is sent only when dumping it (which reads the whole body) succeeded: a failing upload source ends the call with its error", "client.Do is reachable after DumpRequestOut failed: the partly read upload is sent and a 2xx reported as success")
+			}
+		}
 	}
 	// closing the request body must close the pipe: the body given to the request for a multipart upload IS the pipe's
 	// read end (wrapped in anything that is no io.Closer — a bufio.Reader — http.NewRequest gives it a no-op Close, and
@@ -839,6 +858,53 @@ func ruleCopyFailureKept(c *Ctx, rule string) {
 				}
 				ad, isLd := derefLoad(v)
 				return isLd && cellOf(ad) == cell
+			}
+			// the source that was copied is then closed — the SOURCE, i.e. what the body variable held when it was copied:
+			// once the variable is re-bound to the buffer, a type assertion on it finds no closer and the stream stays open
+			if srcAd, isLd := derefLoad(call.Call.Args[1]); isLd && cellOf(srcAd) != nil {
+				bodyCell := cellOf(srcAd)
+				var rebinds []*ssa.Store
+				for _, in := range ownInstrs(g) {
+					if st, isSt := in.(*ssa.Store); isSt && cellOf(st.Addr) == bodyCell && pathExists(g, call, st, nil, nil) {
+						rebinds = append(rebinds, st)
+					}
+				}
+				nClose, nFresh := 0, 0
+				var at ssa.Instruction = call
+				for _, ci := range allCalls(g) {
+					if ci.Parent() != g || ifaceMethodCalled(ci.Common()) != "Close" {
+						continue
+					}
+					ex, isEx := ifaceReceiver(ci.Common()).(*ssa.Extract)
+					if !isEx {
+						continue
+					}
+					ta, isTA := ex.Tuple.(*ssa.TypeAssert)
+					if !isTA {
+						continue
+					}
+					ld, isL := ta.X.(*ssa.UnOp)
+					if !isL || ld.Op != token.MUL || cellOf(ld.X) != bodyCell {
+						continue
+					}
+					nClose++
+					stale := false
+					for _, rb := range rebinds {
+						if pathExists(g, rb, ld, nil, nil) {
+							stale = true
+						}
+					}
+					if !stale {
+						nFresh++
+					} else {
+						at = ci
+					}
+				}
+				if nClose > 0 {
+					c.obI(rule, at, "copied-source-is-closed", nFresh > 0, "after the streamed body was copied into the buffer, the stream itself is closed: the closer is looked for in the body variable while it still holds the stream", "the body variable is re-bound to the buffer before the closer is looked up in it: the copied stream (an upload file, the multipart pipe) is never closed")
+				} else {
+					c.obRI(rule, call, "copied-source-is-closed", false, "after the streamed body was copied into the buffer, the stream itself is closed", "no Close on a closer found in the body variable")
+				}
 			}
 			for _, in := range ownInstrs(g) {
 				st, isSt := in.(*ssa.Store)
